@@ -814,3 +814,81 @@ func runRootLen(rc *RuleCtx) {
 			false: "the receiver's bytes are walked as a field sequence without looking at IsRoot: for a message value cut out of its parent the length prefix is taken for the first tag"}[readsRoot], true)
 	}
 }
+
+// ---------------------------------------------------------------------------------------------
+// HDRPEEK
+// ---------------------------------------------------------------------------------------------
+
+func init() {
+	register(&Rule{
+		Name:     "HDRPEEK",
+		Doc:      "a thrift container's header is peeked at from the position of its first element with the offsets of the wire format (map: key type, value type, count:4 → key type at -6, value type at -5, count at -4; list/set: element type at -5, count at -4): in thrift/generic every `rt.SubPtr(v, K)` with a constant K reads the count (a 4-byte window) at K=4, a type byte assigned to a variable named kt/keyType at K=6 and one named et/vt/elemType at K=5. With the key type read at -5 the key of a pair inserted into a map<i32,string> is encoded by the VALUE type: no key bytes, count grown, the rest of the value no longer decodes",
+		Configs:  "NP",
+		Floor:    map[string]int{"N": 3, "P": 3},
+		Controls: 1,
+		Run:      runHdrPeek,
+	})
+}
+
+func runHdrPeek(rc *RuleCtx) {
+	p := rc.W.Pkg("thrift/generic")
+	for _, f := range p.Syntax {
+		for _, d := range f.Decls {
+			fd, ok := d.(*ast.FuncDecl)
+			if !ok || fd.Body == nil {
+				continue
+			}
+			name := declName("thrift/generic", fd)
+			var stack []ast.Node
+			ast.Inspect(fd.Body, func(n ast.Node) bool {
+				if n == nil {
+					stack = stack[:len(stack)-1]
+					return false
+				}
+				stack = append(stack, n)
+				ce, ok := n.(*ast.CallExpr)
+				if !ok || len(ce.Args) != 2 {
+					return true
+				}
+				sel, ok := ce.Fun.(*ast.SelectorExpr)
+				if !ok || sel.Sel.Name != "SubPtr" {
+					return true
+				}
+				tv, ok := p.TypesInfo.Types[ce.Args[1]]
+				if !ok || tv.Value == nil {
+					return true
+				}
+				k := tv.Value.ExactString()
+				// what is the peek used as?
+				want, role := "", ""
+				for i := len(stack) - 2; i >= 0 && want == ""; i-- {
+					switch x := stack[i].(type) {
+					case *ast.CallExpr:
+						if s2, ok := x.Fun.(*ast.SelectorExpr); ok && s2.Sel.Name == "BytesFrom" {
+							want, role = "4", "the 4-byte count"
+						}
+					case *ast.AssignStmt:
+						if len(x.Lhs) == 1 {
+							if id, ok := x.Lhs[0].(*ast.Ident); ok {
+								switch id.Name {
+								case "kt", "keyType", "kType":
+									want, role = "6", "the key type ("+id.Name+")"
+								case "et", "vt", "elemType", "valueType":
+									want, role = "5", "the element type ("+id.Name+")"
+								}
+							}
+						}
+					}
+				}
+				if want == "" {
+					return true
+				}
+				rc.Examined++
+				good := k == want
+				rc.add(nil, name, "header peek of "+role, ce.Pos(), map[bool]string{true: "discharged", false: "violated"}[good],
+					map[bool]string{true: "the peek uses the offset of the wire format", false: "the header is peeked at offset -" + k + " where " + role + " lies at -" + want + ": another header byte is taken for it"}[good], true)
+				return true
+			})
+		}
+	}
+}
